@@ -898,13 +898,19 @@ def scenario(c, W, exe_lines, spec, tag, stats):
     if path.startswith("sorted") and removed_any: dim("keep_sorted")
     if spec["gravity"] == "tree" and removed_any: dim("tree_gravity_direct_search")
     if spec["integrator"] in ("mercurius", "trace") and removed_any: dim("hybrid_forced_keep_sorted")
-    # free_particle_ap is called once for every particle that leaves the array (and for nobody else)
+    # free_particle_ap is called exactly once for every particle removed by the resolution loop, and never for a survivor
+    # (particles dropped by the boundary check / tree update are not this property's business)
     if kind == "script" and path != "sorted+tree" and not nvar:
-        gone = sorted(set(p["id"] for p in spec["parts"]) - set(p[0] for p in B["state"]))
-        if sorted(B["freed"]) != gone:
-            c.violation("free_particle_ap-mismatch:" + path, "free_particle_ap called for %s, particles that left the array: %s [%s]" % (sorted(B["freed"]), gone, path),
+        fin = set(p[0] for p in B["state"] if p[2] == p[2])
+        req = []
+        for (p1, p2, g, ha, hb, out) in callsB:
+            if out & 1 and ha not in fin: req.append(ha)
+            if out & 2 and hb not in fin: req.append(hb)
+        bad = [h for h in set(req) if B["freed"].count(h) != 1] + [h for h in B["freed"] if h in fin]
+        if bad:
+            c.violation("free_particle_ap-mismatch:" + path, "free_particle_ap called for %s, particles removed by the resolution loop: %s [%s]" % (sorted(B["freed"]), sorted(set(req)), path),
                         dict(spec=spec, res=list(res)))
-        if gone:
+        if req:
             dim("free_particle_ap")
     # track_energy_offset: a merger books exactly the pair's kinetic terms and mutual potential (collision.c:819-911)
     for (before, out, p1, p2, nact, eo0, eo1, G) in B["eorec"]:
@@ -1459,8 +1465,12 @@ def integrate_split_case(c, W, rng, idx, stats):
     dt = abs(spec["dt"])
     sim.dt = dt
     e1, e2 = rng.choice([0, 1]), rng.choice([0, 1, 1])
-    sim.integrate(dt * rng.uniform(1.2, 2.8), exact_finish_time=e1)
-    sim.integrate(sim.t + dt * rng.uniform(0.3, 2.7), exact_finish_time=e2)
+    try:
+        sim.integrate(dt * rng.uniform(1.2, 2.8), exact_finish_time=e1)
+        sim.integrate(sim.t + dt * rng.uniform(0.3, 2.7), exact_finish_time=e2)
+    except RuntimeError:
+        stats["integrate_left_box"] = stats.get("integrate_left_box", 0) + 1     # a particle left the tree's box: error reported by the code
+        return
     tab = gb_table(W, sim)
     tabhex = [gbhex(g) for g in tab]
     img_of = {}
